@@ -198,6 +198,13 @@ def search(ctx, broken, corr_broken):
     if hit:
         LAST_SEARCH_CANDIDATES = n
         return [hit]
+    # PGNs that share their low 16 (or low 8 + PDU format) bits with a PGN of the other kind: whatever single-frame traffic of the "twin"
+    # a decoder — this one or an earlier one in the process — has seen, the frames of a fast-packet PGN are reassembled (public path)
+    hit, n3 = _twin_pgns(ctx, rnd)
+    n += n3
+    if hit:
+        LAST_SEARCH_CANDIDATES = n
+        return [hit]
     # two decoder objects: frames given to one never complete, restart or swallow a message of the other
     for trial in range(300):
         k = rnd.randrange(len(KEYS))
@@ -273,6 +280,56 @@ def _interleaved_singles(ctx, rnd):
     return None, n
 
 
+def _twin_feed(pgn, twin, payload, seq=2, src=3):
+    """a fresh public decoder sees one single frame of `twin`, then the frames of a fast-packet message of `pgn`; returns the observations
+    of the fast frames (the per-PGN decode step is replaced by a capture of the combined payload, as in harness.fast_decoder)"""
+    import deccorr
+    d = harness.fast_decoder()
+    pdu1 = lambda g: (g >> 8) & 0xFF < 240
+    try:
+        d.decode_tcp(deccorr._ebyte(twin, 6, src, 255 if not pdu1(twin) else 9, bytes([0x11] * 8)))
+    except Exception:
+        pass
+    out = []
+    for f in spec_frames(seq, payload):
+        try:
+            r = d.decode_tcp(deccorr._ebyte(pgn, 6, src, 255 if not pdu1(pgn) else 9, f))
+            out.append("none" if r is None else ("complete:" + harness.hx(r.payload) if hasattr(r, "payload") else "message"))
+        except Exception as e:
+            out.append("raised:" + type(e).__name__)
+    return out
+
+
+def _twin_pgns(ctx, rnd):
+    db = pgncorr.Db(common.REPO)
+    kind = {}
+    for pgn, g in db.groups.items():
+        kind[pgn] = "Fast" if all(p["Type"] == "Fast" for p in g) else ("Single" if all(p["Type"] == "Single" for p in g) else "Mixed")
+    fast = sorted(p for p, k in kind.items() if k == "Fast")
+    single = sorted(p for p, k in kind.items() if k == "Single")
+    pairs = set()
+    for m in (0xFFFF, 0xFF00, 0x1FF00, 0xFF):
+        by = {}
+        for q in single:
+            by.setdefault(q & m, q)
+        for p_ in fast:
+            if p_ & m in by:
+                pairs.add((p_, by[p_ & m]))
+    pairs = sorted(pairs)
+    if len(pairs) > 120:
+        pairs = sorted(rnd.sample(pairs, 120) + [x for x in pairs if x[0] in (126464, 126720, 130816)][:6])
+    n = 0
+    for pgn, twin in pairs:
+        payload = bytes((7 * i + 1) & 0xFF for i in range(15))
+        got = _twin_feed(pgn, twin, payload)
+        exp = ["none", "none", "complete:" + harness.hx(payload)]
+        n += 1
+        if got != exp:
+            return {"key": f"C04/twin-pgn/{pgn}-after-{twin}", "what": f"after one single frame of PGN {twin} the three frames of a 15-byte fast-packet message of PGN {pgn} "
+                    f"(database Type Fast) give {got}, expected {exp}", "replay": {"kind": "twin-pgn", "pgn": pgn, "twin": twin}}, n
+    return None, n
+
+
 def _with_gap(lst, pos):
     """the expected results of the frames of a message with one extra (stale) arrival inserted at `pos`"""
     return lst[:pos] + ["none"] + lst[pos:]
@@ -285,6 +342,12 @@ def _viol(kind, history, exp, got, stream=None):
 
 
 def replay(rp):
+    if rp.get("kind") == "twin-pgn":
+        harness.load_repo()
+        payload = bytes((7 * i + 1) & 0xFF for i in range(15))
+        got = _twin_feed(rp["pgn"], rp["twin"], payload)
+        exp = ["none", "none", "complete:" + harness.hx(payload)]
+        return got == exp, f"after a single frame of {rp['twin']} the frames of {rp['pgn']} give {got}, expected {exp}"
     if rp.get("kind") == "interleaved":
         harness.load_repo()
         from nmea2000.decoder import NMEA2000Decoder
